@@ -127,6 +127,21 @@ func c09Inputs(tier string) []c09Input {
 	add("case-variant-plain", "yaml", m("Key", 1, "key", 2, "kEy", m("A", 1, "a", 2)))
 	add("case-variant-merge", "json", m("Aa", 1, "aA", 2, "aa", 3), m("AA", 4, "aa", "$delete", "Aa", 9))
 	add("unicode-variant-keys", "json", m("é", 1, "e\u0301", 2, "É", 3, "f", m("$encode", "values", "é", 1, "É", 2)))
+	// more than a dozen entries with repeated (list-valued) keys: an unstable sort would show
+	big := m("$encode", "tolist:=")
+	for i := 0; i < 9; i++ {
+		big[fmt.Sprintf("k%d", i)] = i
+	}
+	big["rep"] = []any{"a", "b", "c", "d"}
+	big["flag"] = []any{"x", "y", "z"}
+	add("encode-tolist-many-repeated", "json", m("f", big))
+	bigf := m("$encode", "flags")
+	for k, v := range big {
+		if k != "$encode" {
+			bigf[k] = v
+		}
+	}
+	add("encode-flags-many-repeated", "json", m("f", bigf))
 	// evaluated keys that collide with sibling keys (last writer would win if the walk were unordered)
 	add("evaluated-key-collides", "json", m("name", "svc", "svc", "literal", `$"{name}"`, "interpolated"))
 	add("evaluated-key-collides-repeat", "json", m("hosts", m("host-0", "static", `$"host-{$repeat}"`, m("$repeat", 2, "v", "$repeat"))))
